@@ -28,6 +28,8 @@ class MyWarning(UserWarning):
 
 
 def plus100(v):
+    if isinstance(v, list):
+        return v + ["transformed"]  # (targets are never lists: only a FALLBACK wrongly sent through the transform would show this)
     return v + 100 if isinstance(v, int) else v
 
 
